@@ -11,7 +11,7 @@
 (* Tolerated, as the properties compare verdicts and stacks but not error codes or where an  *)
 (* error is raised: the implementation stopping with an error earlier or later than the      *)
 (* specification, provided the final verdicts agree.                                         *)
-EXTENDS TraceLib, ScriptVM
+EXTENDS TraceLib, ScriptVM, DebugLifecycle
 
 VARIABLES l, vm, cx, mode, nsteps
 vars == <<l, vm, cx, mode, nsteps>>
@@ -48,28 +48,39 @@ TrStep ==
                  Emit([k |-> "hash", kind |-> HashKind(CurTok(vm).op), in |-> Top(vm.ds, 1), out |-> orc.top, ref |-> l])
             /\ vm' = v2
             /\ IF v2.st = "err" THEN mode' = "specerr"
-               ELSE IF v2.st = "unmodelled" THEN (mode' = "skip" /\ Emit([k |-> "unmodelled", i |-> l]))
+               ELSE IF v2.st \in {"unmodelled", "toobig"} THEN (mode' = "skip" /\ Emit([k |-> "unmodelled", i |-> l]))
                ELSE IF Ev.dk <= Len(vm.ds) /\ Ev.ak <= Len(vm.as) /\ v2.ds = eds /\ v2.as = eas THEN mode' = "run"
                ELSE /\ Reject(l, [cls |-> "stack", op |-> CurTok(vm).op, sidx |-> vm.sidx, pc |-> vm.pc,
                                   expds |-> v2.ds, expas |-> v2.as, gotds |-> eds, gotas |-> eas])
                     /\ mode' = "skip"
 
-StepBound == vm.scripts[1].len + vm.scripts[2].len + 4
+StepBound == 2 * (vm.scripts[1].len + vm.scripts[2].len) + 4
 
 TrEnd ==
     /\ Ev.ev = "end"
     /\ UNCHANGED <<vm, cx, nsteps>>
     /\ mode' = "idle"
-    /\ (Ev.outcome \notin {"ok", "err"} /\ ~(mode = "run" /\ Verdict(Run(vm, cx), cx) = "unmodelled")) =>
+    /\ (Ev.outcome \notin {"ok", "err"} /\ ~(mode = "run" /\ Verdict(Run(vm, cx), cx) = "toobig")) =>
           Reject(l, [cls |-> "total", outcome |-> Ev.outcome,
                      op |-> IF mode = "run" /\ vm.st = "run" /\ ~CurTok(vm).bad THEN CurTok(vm).op ELSE -1])
-    /\ (mode # "idle" /\ vm.st # "none" /\ ~vm.p2sh /\ nsteps > StepBound) => Reject(l, [cls |-> "steps", n |-> nsteps])
-    /\ (~Ev.same) => Reject(l, [cls |-> "sideeffect"])
+    /\ (mode # "idle" /\ vm.st # "none" /\ nsteps > StepBound) => Reject(l, [cls |-> "steps", n |-> nsteps])
+    \* the same program without a debugger and with a debugger that scribbles over every snapshot
+    /\ Has(Ev, "nodbg") =>
+          /\ (Ev.nodbg \notin {"ok", "err"}) => Reject(l, [cls |-> "total", outcome |-> Ev.nodbg, op |-> -1, run |-> "nodbg"])
+          /\ (Ev.scribble \notin {"ok", "err"}) => Reject(l, [cls |-> "total", outcome |-> Ev.scribble, op |-> -1, run |-> "scribble"])
+          /\ (Ev.outcome \in {"ok", "err"} /\ ~(Ev.nodbg = Ev.outcome /\ Ev.nodbgErr = Ev.err)) =>
+                Reject(l, [cls |-> "debug-changes-verdict", with |-> Ev.outcome, without |-> Ev.nodbg])
+          /\ (Ev.outcome \in {"ok", "err"} /\ ~(Ev.scribble = Ev.outcome /\ Ev.scribbleErr = Ev.err /\ Ev.scribbleSameSnapshots /\ Ev.scribbleSameCalls)) =>
+                Reject(l, [cls |-> "snapshot-not-isolated", with |-> Ev.outcome, scribbled |-> Ev.scribble,
+                           snaps |-> Ev.scribbleSameSnapshots, calls |-> Ev.scribbleSameCalls])
+    /\ (Has(Ev, "calls") /\ Ev.outcome \in {"ok", "err"} /\ ~Lifecycle(Ev.calls, Ev.outcome)) =>
+          Reject(l, [cls |-> "lifecycle", final |-> Final(Ev.calls), n |-> Len(Ev.calls)])
+    /\ (~Ev.same \/ (Has(Ev, "nodbgSame") /\ ~Ev.nodbgSame)) => Reject(l, [cls |-> "sideeffect"])
     /\ IF Ev.outcome \notin {"ok", "err"} \/ mode \in {"skip", "idle"} THEN TRUE
        ELSE IF mode = "specerr"
        THEN (Ev.outcome # "err") => Reject(l, [cls |-> "verdict", spec |-> "err", impl |-> Ev.outcome, early |-> TRUE])
        ELSE LET fin == Verdict(Run(vm, cx), cx) IN
-            IF fin = "unmodelled" THEN Emit([k |-> "unmodelled", i |-> l])
+            IF fin \in {"unmodelled", "toobig"} THEN Emit([k |-> "unmodelled", i |-> l])
             ELSE (Ev.outcome # fin) => Reject(l, [cls |-> "verdict", spec |-> fin, impl |-> Ev.outcome, early |-> FALSE])
 
 \* run to the end with a hash-oracle table (sequence of [kind, in, out], filled in by python over
